@@ -13,7 +13,7 @@ open Cal Odo
 /-- the search is one call of the state machine for a fixed-offset location (the DST retry loop
     returns at once) -/
 theorem C06_single_pass (f : Fields) (hwf : WellFormed f = true) (c prev : Int)
-    (hc : -100000 ≤ c ∧ c ≤ 100000) (hp : 0 ≤ prev) :
+    (hc : -100000 ≤ c ∧ c ≤ 100000) (hp : -9223372036854775808 ≤ prev) :
     ∃ nw, csmNext {} f (Civil.ofSeconds (prev / 1000000000 + c)) = some nw ∧
       nextFire {} f (fixedZone c) prev =
         (match nw with
@@ -22,7 +22,7 @@ theorem C06_single_pass (f : Fields) (hwf : WellFormed f = true) (c prev : Int)
   nextFire_fixed f hwf c prev hc hp
 
 theorem C06_total (f : Fields) (hwf : WellFormed f = true) (c prev : Int)
-    (hc : -100000 ≤ c ∧ c ≤ 100000) (hp : 0 ≤ prev) :
+    (hc : -100000 ≤ c ∧ c ≤ 100000) (hp : -9223372036854775808 ≤ prev) :
     (∃ r, nextFire {} f (fixedZone c) prev = .ok r ∧ prev < r) ∨
       nextFire {} f (fixedZone c) prev = .expired := by
   obtain ⟨nw, _, hnf⟩ := nextFire_fixed f hwf c prev hc hp
@@ -31,7 +31,7 @@ theorem C06_total (f : Fields) (hwf : WellFormed f = true) (c prev : Int)
   | some t => exact Or.inl ⟨_, hnf, (C01_sound f hwf c prev hc hp _ hnf).2.1⟩
 
 theorem nextFire_ne_outOfFuel (f : Fields) (hwf : WellFormed f = true) (c prev : Int)
-    (hc : -100000 ≤ c ∧ c ≤ 100000) (hp : 0 ≤ prev) :
+    (hc : -100000 ≤ c ∧ c ≤ 100000) (hp : -9223372036854775808 ≤ prev) :
     nextFire {} f (fixedZone c) prev ≠ .outOfFuel := by
   rcases C06_total f hwf c prev hc hp with ⟨r, h, _⟩ | h <;> rw [h] <;> exact fun h => by cases h
 
@@ -56,5 +56,22 @@ example : ∃ nw, csmNext {} exNoon (Civil.ofSeconds (0 / 1000000000 + 0)) = som
        | none => .expired
        | some t => .ok ((t.toSeconds - 0) * 1000000000)) :=
   C06_single_pass exNoon exNoon_wf 0 0 (by omega) (by omega)
+
+/-! ### a `prev` before 1970 (negative), down to the smallest int64 -/
+
+example : (∃ r, nextFire {} exEvery (fixedZone 0) (-500000000) = .ok r ∧ -500000000 < r) ∨
+    nextFire {} exEvery (fixedZone 0) (-500000000) = .expired :=
+  C06_total exEvery exEvery_wf 0 (-500000000) (by omega) (by omega)
+
+/-- the smallest `prev` Go can pass (`math.MinInt64` ns, the year 1677) -/
+example : nextFire {} exNoon (fixedZone 0) (-9223372036854775808) ≠ .outOfFuel :=
+  nextFire_ne_outOfFuel exNoon exNoon_wf 0 _ (by omega) (by omega)
+
+example : ∃ nw, csmNext {} exEvery (Civil.ofSeconds (-500000000 / 1000000000 + 0)) = some nw ∧
+    nextFire {} exEvery (fixedZone 0) (-500000000) =
+      (match nw with
+       | none => .expired
+       | some t => .ok ((t.toSeconds - 0) * 1000000000)) :=
+  C06_single_pass exEvery exEvery_wf 0 (-500000000) (by omega) (by omega)
 
 end Cron
